@@ -406,6 +406,8 @@ class StreamModel:
                 for v in regs.vals:
                     st['static'].add(id(v))
             res = {'chunks': [], 'error': None}
+            # what a new inspector reports before it has seen any data
+            res['fresh_before'] = observe(interp, insp, False)
             st['born_info'] = {}
             res['born'] = st['born_info']
             holder['res'] = res
@@ -431,6 +433,14 @@ class StreamModel:
             except AbsRaise as r:
                 res['finish_error'] = _exc_name(interp, r.exc)
             res['final'] = observe(interp, insp, True)
+            # ... and what the next new inspector reports afterwards
+            try:
+                st2 = dict(st)
+                insp2 = interp.call(cls, [])
+                res['fresh_after'] = observe(interp, insp2, False)
+            except AbsRaise as r:
+                res['fresh_after'] = {'constructor': (
+                    'raise', _exc_name(interp, r.exc))}
             chk = insp.fields.get('_safety_checks')
             res['checks'] = sorted(k.v for k in chk.keys) if isinstance(
                 chk, DictV) else None
